@@ -225,7 +225,8 @@ fn max_hash_run(s: &str) -> usize {
 pub fn module_of(file: &str) -> Option<usize> {
     let name = Path::new(file).file_name()?.to_str()?;
     let stem = name.strip_suffix(".rs")?;
-    stem.strip_prefix('m')?.parse().ok()
+    // m<N>.rs is a generated module, drv_m<N>.rs the round-trip driver written against its definition
+    stem.strip_prefix("drv_m").or_else(|| stem.strip_prefix('m'))?.parse().ok()
 }
 
 pub fn by_module(diags: &[Diag]) -> BTreeMap<Option<usize>, Vec<&Diag>> {
